@@ -100,6 +100,10 @@ func c03Tables(w *World, r *Report) {
 
 func runC03(w *World, r *Report) {
 	hrDefaultMethods(w, r, "R4")
+	hrFilterExtendDedupAgainstItself(w, r, "R9")
+	hrWildcardConstant(w, r, "R8")
+	// the spellings of "any URL" (C14.R4)
+	r.Borrow(w, c14CatchAllSpellings, map[string]string{"R4": "R8"})
 	hrResumeNodeIsPerFlow(w, r, "R9")
 	hrHeaderValueMatch(w, r, "R4")
 	hrSplitURLKeepsEmptyParts(w, r, "R7")
